@@ -42,7 +42,7 @@ Proof.
     destruct (IH z) as (z' & E & Ec & U & Lz); [cbn in Hf; lia|exact Hmz|].
     rewrite E. cbn [bind]. eexists. split; [reflexivity|].
     set (m := cluster_mask flip clear (g :: a)).
-    assert (Hblock : forall x, In x (map (fun x => mkG (cl x) m 0 (cp x) (gid x)) (g :: a)) -> cl x = cl g /\ gf x = m).
+    assert (Hblock : forall x, In x (map (fun x => mkGX (cl x) m 0 (cp x) (gid x) (up x) (gp x)) (g :: a)) -> cl x = cl g /\ gf x = m).
     { intros x Hx. apply in_map_iff in Hx. destruct Hx as (y & <- & Hy). cbn [cl gf]. split; [|reflexivity].
       destruct Hy as [<-|Hy]; [reflexivity|]. rewrite Forall_forall in Ha. exact (Ha y Hy). }
     assert (Hz' : forall x, In x z' -> cl x <> cl g).
